@@ -571,6 +571,46 @@ func (fc *FnCtx) frameCheck(st *State, where string, pos token.Pos) {
 			}
 			continue
 		}
+		if call, ok := m.(*ast.CallExpr); ok && exprString(call.Fun) == "reach" && len(call.Args) == 1 {
+			// reach(x): every object reachable from the entry value of x
+			esc := fc.specCtx(fc.entry, nil)
+			seen := map[int]bool{}
+			var visit func(v Value, depth int)
+			visit = func(v Value, depth int) {
+				if depth > 12 {
+					return
+				}
+				switch x := v.(type) {
+				case *PtrV:
+					if x.Alt != nil {
+						visit(x.Alt.a, depth+1)
+						visit(x.Alt.b, depth+1)
+						return
+					}
+					if x.Obj < 0 || seen[x.Obj] {
+						return
+					}
+					seen[x.Obj] = true
+					allowed[tgt{x.Obj, "*"}] = true
+					visit(fc.entry.heap[x.Obj], depth+1)
+					visit(st.heap[x.Obj], depth+1)
+				case *StructV:
+					for _, f := range x.Names {
+						visit(x.F[f], depth+1)
+					}
+				case *boxedV:
+					if !seen[x.Obj] {
+						seen[x.Obj] = true
+						allowed[tgt{x.Obj, "*"}] = true
+						visit(fc.entry.heap[x.Obj], depth+1)
+					}
+				}
+			}
+			if v := esc.tryEval(call.Args[0]); v != nil {
+				visit(v, 0)
+			}
+			continue
+		}
 		if rootIsCV(m) {
 			cvp := fc.e.renderCV(sc.st)
 			fc.e.renderCV(fc.entry)
